@@ -247,9 +247,49 @@ def translate():
                     f"     inits := [{'; '.join(map(str, inits))}]; srcs := [{'; '.join(x.srcs)}];\n     body := [{'; '.join(x.body)}];\n"
                     f"     finals := [{'; '.join(map(str, x.finals))}]; finalised := [{'; '.join(map(str, fin))}] |}}.\n")
     return (f"(* GENERATED by translator/enc2coq.py from {REPO}/bio2zarr/vcf2zarr/vcz.py: the driving skeletons of the partition encoders *)\n"
-            "From Coq Require Import List.\nFrom B2Z Require Import Base.EncSkel.\nImport ListNotations.\n\n"
+            "From Coq Require Import List.\nFrom B2Z Require Import Base.Prims Base.EncSkel.\nImport ListNotations.\n\n"
             f"(* array ids: {', '.join(f'{v}={k}' for k, v in names.items())} *)\n\n" + "\n".join(defs)
-            + "\nDefinition gen_encoders : list skel := [" + "; ".join("skel_" + m for m in METHODS) + "].\n")
+            + "\nDefinition gen_encoders : list skel := [" + "; ".join("skel_" + m for m in METHODS) + "].\n" + filters_row(fns))
+
+
+def filters_row(fns):
+    """encode_filters_partition: how one record's FILTER value becomes a row of flags"""
+    fn = fns["encode_filters_partition"]
+    body = strip(fn.body)
+    t0 = src(body[0]) if body else ""
+    if t0 != "lookup = {filt.id: index for index, filt in enumerate(self.schema.filters)}":
+        raise Unsupported("encode_filters_partition: lookup table: " + t0[:100])
+    loop = next((x for x in body if isinstance(x, ast.For)), None)
+    lb = strip(loop.body) if loop else []
+    v = loop.target.id if loop and isinstance(loop.target, ast.Name) else "?"
+    if len(lb) != 3 or not (isinstance(lb[0], ast.Assign) and src(lb[0].value).endswith(".next_buffer_row()")):
+        raise Unsupported("encode_filters_partition: record loop")
+    j = src(lb[0].targets[0])
+    b = src(lb[0].value)[: -len(".next_buffer_row()")]
+    if src(lb[1]) != f"{b}.buff[{j}] = False":
+        raise Unsupported("encode_filters_partition: the row is not cleared first: " + src(lb[1])[:80])
+    inner = lb[2]
+    if not (isinstance(inner, ast.For) and src(inner.iter) == v and isinstance(inner.target, ast.Name) and not inner.orelse):
+        raise Unsupported("encode_filters_partition: filter loop")
+    f = inner.target.id
+    ib = strip(inner.body)
+    ok = len(ib) == 1 and isinstance(ib[0], ast.Try) and not ib[0].orelse and not ib[0].finalbody and len(ib[0].handlers) == 1 \
+        and [src(x) for x in strip(ib[0].body)] == [f"{b}.buff[{j}, lookup[{f}]] = True"] \
+        and src(ib[0].handlers[0].type) == "KeyError" and len(strip(ib[0].handlers[0].body)) == 1 \
+        and isinstance(strip(ib[0].handlers[0].body)[0], ast.Raise) and src(strip(ib[0].handlers[0].body)[0].exc).startswith("ValueError(")
+    if not ok:
+        raise Unsupported("encode_filters_partition: every filter of the record must be looked up, an unknown one raising ValueError: " + src(inner)[:160])
+    return """
+(* encode_filters_partition, one record: the row is cleared, then every filter of the record is looked up in the header's
+   filter list (value: Some index | None = not declared) and its flag set; an undeclared filter raises ValueError *)
+Fixpoint gen_filter_row_loop (row : list bool) (value : list (option nat)) : res (list bool) :=
+  match value with
+  | [] => Ok row
+  | None :: _ => Err E_ValueError
+  | Some i :: tl => gen_filter_row_loop (set_nth i true row) tl
+  end.
+Definition gen_filter_row (nf : nat) (value : list (option nat)) : res (list bool) := gen_filter_row_loop (repeat false nf) value.
+"""
 
 
 def main():
